@@ -332,7 +332,7 @@ def main(argv=None):
         report.say('HARNESS-ERROR: {}'.format(e))
         return env.EXIT_HARNESS
     status, kinds_ok = {}, {}
-    faults, pool = {}, {}
+    faults, pool, probes = {}, {}, {}
     sigs = set()
     samples = []
     failing = []
@@ -345,9 +345,13 @@ def main(argv=None):
             report.say('HARNESS-ERROR: pair {}: {}'.format(o['i'],
                                                            o.get('error')))
             return env.EXIT_HARNESS
-        for table, src in ((faults, o.get('faults')), (pool, o.get('pool'))):
+        for table, src in ((faults, o.get('faults')), (pool, o.get('pool')),
+                           (probes, o.get('probes'))):
             for k, v in (src or {}).items():
-                table[k] = table.get(k, 0) + v
+                if k.startswith('max_'):
+                    table[k] = max(table.get(k, 0), v)
+                else:
+                    table[k] = table.get(k, 0) + v
         sim_s += o.get('sim_seconds') or 0
         if o['status'] == 'ok':
             kinds_ok[o['kind']] = kinds_ok.get(o['kind'], 0) + 1
@@ -389,7 +393,7 @@ def main(argv=None):
               'sequence of the variant).'),
         samples=samples or [dict(note='no pair completed')],
         pairs_by_kind=kinds_ok, status_counts=status, faults_fired=faults,
-        pool=pool, simulated_seconds=round(sim_s, 1),
+        pool=pool, probes=probes, simulated_seconds=round(sim_s, 1),
         runs_per_hour=round(2 * n_eval / max(wall, 1e-9) * 3600),
         components=report.COMPONENTS,
         known_findings_matched=len(verdict.known))
